@@ -74,6 +74,17 @@ pub fn generate(g: &mut Gen) {
             g.push(format!("rnd.tensor {} {} {}", sh, hx(lo), hx(hi)), Tol::Exact, "random-tensor", true);
         }
     }
+    // … one-point intervals, intervals whose width overflows single precision, intervals a few units in the last place wide;
+    // shapes with an extent of zero or one in every position
+    for sh in ["S 7", "D 2 5", "T 2 3 5", "Q 2 3 2 3", "S 64"] {
+        for (lo, hi) in [(0.5f32, 0.5f32), (0.0, 0.0), (-2.0, -2.0), (3.0, 3.0), (1e-3, 1e-3), (-3e38, 3e38), (f32::MIN, f32::MAX), (-3e38, 1e38), (-1e38, 3e38),
+                         (1.0, f32::from_bits(1.0f32.to_bits() + 1)), (-0.3, f32::from_bits((-0.3f32).to_bits() - 2)), (1e30, 2e30), (-1e-40, 1e-40)] {
+            g.push(format!("rnd.tensor {} {} {}", sh, hx(lo), hx(hi)), Tol::Exact, "random-tensor/intervals", true);
+        }
+    }
+    for sh in ["S 0", "D 1 0", "D 3 0", "D 0 3", "T 2 0 3", "T 2 3 0", "T 0 2 3", "Q 1 2 0 1", "Q 2 1 3 0", "Q 0 1 1 1", "D 1 1", "T 1 1 1", "Q 1 1 1 1", "D 7 1", "D 1 7"] {
+        g.push(format!("rnd.tensor {} {} {}", sh, hx(-1.0), hx(1.0)), Tol::Exact, "random-tensor/degenerate-extents", true);
+    }
     g.push("rnd.shuffle 99 0".to_string(), Tol::Exact, "shuffle/empty", true);
     g.push("rnd.shuffle 99 1 7".to_string(), Tol::Exact, "shuffle/singleton", true);
 
